@@ -132,6 +132,13 @@ def row_for(kind, mod, n=0):
         return (mod, "P.meth", '{"x": %s}' % cls_json(mod[:-1], "C"), t, None)
     if kind == "nowraps":
         return (mod, "unwrapped", '{"a": %s}' % t, t, None)
+    if kind == "elem_class_now_nontype":      # INSIDE a generic: List[<a name that is no longer a type>]
+        return (mod, "ok1", '{"a": {"module": "typing", "qualname": "List", "elem_types": [%s]}}' % cls_json(mod, "NotAType"), t, None)
+    if kind == "elem_class_removed":
+        return (mod, "ok2", '{"a": %s, "b": {"module": "typing", "qualname": "Dict", "elem_types": [%s, %s]}}' % (t, STR, cls_json(mod, "GoneClass")), t, None)
+    if kind == "elem_class_now_nontype_ret":
+        return (mod, "ok1", '{"a": %s}' % t,
+                '{"module": "typing", "qualname": "Union", "elem_types": [%s, %s]}' % (cls_json(mod, "NotAType"), INT), None)
     if kind == "now_builtin":
         return (mod, "now_builtin", '{"a": %s}' % t, t, None)
     if kind == "now_bound_builtin":
@@ -149,7 +156,8 @@ DECODABLE = {"valid", "valid2", "valid_method", "renamed_param", "nowraps"}
 KINDS = ["valid", "valid2", "valid_method", "renamed_param", "function_removed", "arg_class_removed", "return_class_removed",
          "yield_class_removed", "class_module_removed", "local_scope", "now_nonfunction", "now_class", "now_settable_property",
          "class_now_nontype", "class_now_nontype_ret", "class_module_removed_ret", "arg_class_removed_2",
-         "arg_module_removed_name_prefix", "dunder_removed", "dunder_removed_2"]
+         "arg_module_removed_name_prefix", "dunder_removed", "dunder_removed_2", "elem_class_now_nontype", "elem_class_removed",
+         "elem_class_now_nontype_ret"]
 
 _W = {}
 
@@ -160,8 +168,64 @@ def _setup():
     core.use_repo()
     d = tlc.scratch_dir("mtverif_c10_")
     sys.path.insert(0, d)
+    with open(os.path.join(d, "mtc10_custom_store.py"), "w") as fh:
+        fh.write(CUSTOM_STORE_SRC)
     _W.update(dir=d, n=0)
     return _W
+
+
+CUSTOM_STORE_SRC = '''"""GENERATED: a third-party trace store (doc/stores.rst): its thunks promise to_trace() and nothing else."""
+import os
+import sqlite3
+from monkeytype.config import DefaultConfig
+from monkeytype.db.base import CallTraceStore, CallTraceThunk
+from monkeytype.encoding import CallTraceRow
+
+
+class OpaqueThunk(CallTraceThunk):
+    __slots__ = ("_row",)
+
+    def __init__(self, row):
+        self._row = row
+
+    def to_trace(self):
+        return CallTraceRow(*self._row).to_trace()
+
+
+class ListStore(CallTraceStore):
+    def __init__(self, path):
+        self.path = path
+
+    @classmethod
+    def make_store(cls, connection_string):
+        return cls(connection_string)
+
+    def add(self, traces):
+        raise NotImplementedError
+
+    def _rows(self):
+        c = sqlite3.connect(self.path)
+        try:
+            return c.execute("SELECT module, qualname, arg_types, return_type, yield_type FROM monkeytype_call_traces "
+                             "GROUP BY 1, 2, 3, 4, 5 ORDER BY date(created_at) DESC").fetchall()
+        finally:
+            c.close()
+
+    def filter(self, module, qualname_prefix=None, limit=2000):
+        rows = [r for r in self._rows() if r[0] == module and (qualname_prefix is None or r[1].startswith(qualname_prefix))]
+        return [OpaqueThunk(r) for r in rows[:limit]]
+
+    def list_modules(self):
+        return sorted({r[0] for r in self._rows()})
+
+
+class C(DefaultConfig):
+    def trace_store(self):
+        return ListStore(os.environ["MT_DB_PATH"])
+
+
+CONFIG = C()
+'''
 
 
 def make_store(path, rows):
@@ -218,7 +282,8 @@ def run_case(case):
             dk.append("module_removed" if removed else k)
     good = [] if removed else [r for r, k in zip(rows, dk) if k in DECODABLE]
     cmdv = {"stub": ["stub"], "apply": ["apply"], "stub_diff": ["stub", "--diff"]}[case["cmd"]]
-    argv = (["-v"] if case["verbose"] else []) + cmdv + [mod]
+    pre = ["-c", "mtc10_custom_store:CONFIG"] if case.get("custom_store") else []
+    argv = pre + (["-v"] if case["verbose"] else []) + cmdv + [mod]
     db1, db2 = os.path.join(w["dir"], mod + ".db"), os.path.join(w["dir"], mod + "_good.db")
     try:
         make_store(db1, rows)
@@ -231,7 +296,7 @@ def run_case(case):
             with open(path, "w") as fh:
                 fh.write(MOD_SRC)
             sys.modules.pop(mod, None)
-        rc2, crashed2, out2, err2 = cli_run(cmdv + [mod], db2)
+        rc2, crashed2, out2, err2 = cli_run(pre + cmdv + [mod], db2)
         applied2 = None
         if case["cmd"] == "apply" and not removed:
             with open(path) as fh:
@@ -286,12 +351,12 @@ def gen_cases(tier, seed):
     stale = [k for k in KINDS if k not in DECODABLE]
     valid = ["valid", "valid2", "valid_method", "renamed_param"]
 
-    def add(label, seqs, cmds=("stub",), verb=(False, True)):
+    def add(label, seqs, cmds=("stub",), verb=(False, True), custom=False):
         n0 = len(cases)
         for ks in seqs:
             for cmd in cmds:
                 for v in verb:
-                    cases.append({"kinds": list(ks), "cmd": cmd, "verbose": v})
+                    cases.append({"kinds": list(ks), "cmd": cmd, "verbose": v, **({"custom_store": True} if custom else {})})
         plan.append({"family": label, "cases": len(cases) - n0})
     add("every single kind", [[k] for k in KINDS], cmds=("stub", "apply"))
     add("every stale kind at every position among two valid rows",
@@ -304,6 +369,8 @@ def gen_cases(tier, seed):
         [[rng.choice(KINDS) for _ in range(rng.randint(4, 8))] for _ in range(200 if tier == "quick" else 5000)],
         cmds=("stub", "apply"), verb=(False,))
     add("only stale rows (nothing decodable)", [rng.sample(stale, rng.randint(1, 4)) for _ in range(40)], cmds=("stub", "apply"))
+    add("a third-party store whose thunks only promise to_trace(): every single kind, with and without -v",
+        [[k] for k in KINDS] + [[rng.choice(valid), s, rng.choice(valid)] for s in stale[:8]], cmds=("stub",), custom=True)
     add("`stub --diff`: every single kind, stale rows among valid ones, only stale rows",
         [[k] for k in KINDS] + [[rng.choice(valid), s, rng.choice(valid)] for s in stale]
         + [rng.sample(stale, rng.randint(1, 3)) for _ in range(12)], cmds=("stub_diff",))
